@@ -282,7 +282,7 @@ func cleanGuest(p string) string {
 
 var (
 	envKeys    = []string{"A", "B", "HOME", "X"}
-	guestPaths = []string{"/", "/data", "/tmp", "data", "./tmp", "/data/"}
+	guestPaths = []string{"/", "/data", "/tmp", "data", "./tmp", "/data/", "/etc", "/opt", "/usr/", "./home", "/var"}
 	modNames   = []string{"", "m1", "m2"}
 )
 
